@@ -7,7 +7,7 @@ from fractions import Fraction as F
 from .. import core, oracle, rulegen, rules, ruleprops
 from ..core import Case, toF
 from ..ruleprops import violation
-from . import C02
+from . import C02, C07_analytics
 
 RULE = ("seeded elections x additive measures x tie rules x Profile/MultiProfile x plain/iterated; Equal Shares is run with analytics=True and "
         "every clause is re-checked on details.iterations with Fractions (equal start, conservation, only supporters pay, no overdraft, "
@@ -221,6 +221,7 @@ def run(ctx, n=None, compare=True):
             if ms.strip() != impl_s.strip():
                 ctx.disagreements.append({"line": line, "impl": impl_s, "model": o.strip(), "case": case.to_json(), "cfg": ruleprops.cfg_json(cfg)})
             ctx.sample(f"{line} -> impl: {impl_s} | model: {o.strip()}", cap=4)
+    C07_analytics.run_analytics(ctx, compare=compare)  # project details, project loss, effective support
 
 
 def search(ctx, disagreements):
@@ -228,6 +229,8 @@ def search(ctx, disagreements):
 
 
 def replay(payload):
+    if payload.get("sig", {}).get("part") == C07_analytics.PART:
+        return C07_analytics.replay(payload)
     case = Case.from_json(payload["case"])
     cfg = ruleprops.cfg_from_json(payload["cfg"])
     built, out, vs, st = run_one(case, cfg)
